@@ -62,7 +62,8 @@ def check(run):
             continue
         for n in walk_local(f.node):
             if isinstance(n, ast.Call) and isinstance(n.func, ast.Attribute) and n.func.attr == "reset" \
-                    and (dotted(n.func.value) or "").split(".")[-1].startswith("responder"):
+                    and ((dotted(n.func.value) or "").split(".")[-1].startswith("responder") or any(k.arg in params for k in n.keywords)
+                         or (isinstance(n.func.value, ast.Subscript) and dotted(n.func.value.value) == "self.reps")):
                 ncalls += 1
                 for i, p in enumerate(params):
                     v = n.args[i] if i < len(n.args) else next((k.value for k in n.keywords if k.arg == p), None)
@@ -128,6 +129,18 @@ def check(run):
             p = parent(p)
         cmp_ok = isinstance(guard, ast.If) and any(isinstance(c, ast.Compare) and isinstance(c.ops[0], (ast.Gt, ast.GtE))
                                                     and "self.length" in unparse(c) for c in ast.walk(guard.test))
+        if not cmp_ok and isinstance(guard, ast.If):
+            # the guard may be phrased through a temporary: `excess = size + len(msg) - length; if excess > 0:`
+            for c in ast.walk(guard.test):
+                if isinstance(c, ast.Compare) and len(c.ops) == 1 and isinstance(c.ops[0], (ast.Gt, ast.GtE, ast.Lt, ast.LtE)):
+                    l_, r_ = linform(c.left, env, sym), linform(c.comparators[0], env, sym)
+                    if l_ is not None and r_ is not None:
+                        d_ = {k: l_.get(k, 0) - r_.get(k, 0) for k in set(l_) | set(r_)}
+                        d_ = {k: v for k, v in d_.items() if v}
+                        if isinstance(c.ops[0], (ast.Lt, ast.LtE)):
+                            d_ = {k: -v for k, v in d_.items()}
+                        if same(d_, {"self.size": 1, "len(msg)": 1, "self.length": -1}):
+                            cmp_ok = True
         ok = (same(lf, neg_form) or same(lf, pos_form)) and under_len and cmp_ok
         what = "" if ok else "clamp is msg[:%s] (linear form %s) under `%s`; expected msg[:length - size_before(- len(msg))] when the total exceeds length" % (
             unparse(clamp.value.slice.upper), show(lf), unparse(guard.test) if isinstance(guard, ast.If) else None)
